@@ -51,9 +51,13 @@ def main():
     want = set(sys.argv[1:])
     out_path = "/verif/seeded/own_trials.json"
     results = json.load(open(out_path)) if os.path.exists(out_path) else {}
+    override = os.environ.get("MUT_PROP")      # run another property's check against the mutant (recorded as <id>@<prop>)
     for mid, prop, f, old, new in M:
         if old is None or (want and mid not in want and prop not in want):
             continue
+        key = mid
+        if override:
+            prop, key = override, f"{mid}@{override}"
         sh(f"git -C {WT} checkout -- src")
         p = os.path.join(WT, f)
         src = open(p).read()
@@ -67,9 +71,9 @@ def main():
         fresh = [l for l in r.stdout.splitlines() if l.startswith("VIOLATION")]
         tail = r.stdout.strip().splitlines()[-1] if r.stdout.strip() else r.stderr[-200:]
         first = next((l for l in r.stdout.splitlines() if l.strip().startswith("what:")), "")
-        results[mid] = {"property": prop, "file": f, "caught": bool(fresh), "exit": r.returncode, "violations": len(fresh), "first": first.strip()[:300],
+        results[key] = {"property": prop, "file": f, "caught": bool(fresh), "exit": r.returncode, "violations": len(fresh), "first": first.strip()[:300],
                         "tail": tail[:200], "wall": round(time.time() - t0, 1)}
-        print(mid, "CAUGHT" if fresh else "MISSED", r.returncode, tail[:150], flush=True)
+        print(key, "CAUGHT" if fresh else "MISSED", r.returncode, tail[:150], flush=True)
         json.dump(results, open(out_path, "w"), indent=1)
     sh(f"git -C {WT} checkout -- src")
 
